@@ -457,12 +457,13 @@ class SpecGen:
                 a = self.rng.randint(lo, hi - 1)
                 sp.top.append({"id": self.fresh(sp), "type": "VOne", "x": "%s{%d:%d}" % (stem, a, hi)})
                 sp.features.add("range-ref")
+                sp.range_refs = getattr(sp, "range_refs", []) + [(sp.top[-1], "x", stem, a, hi, lo, hi)]
         return sp
 
 
 # ---------------------------------------------------------------------- mutations (malformed stream)
 MUTATIONS = ["dup-ancestor", "dup-any", "dup-any", "dangling", "forward-top", "self-ref", "no-id", "no-type",
-             "bad-type", "not-valid", "missing-key", "dup-top"]
+             "bad-type", "not-valid", "missing-key", "dup-top", "dangling-range"]
 
 
 def ancestors(sp, d):
@@ -523,6 +524,20 @@ def mutate(sp: Spec, rng, which=None):
         else:
             sp.top.append("nowhere.%d" % rng.randint(0, 99))
         return ("dangling", True, {})
+    if which == "dangling-range":
+        # a range reference `stem{a:b}` widened beyond the clones that exist: its first or its last member is undefined
+        rr = getattr(sp, "range_refs", [])
+        if not rr:
+            return mutate(sp, rng, "dangling")
+        c, k, stem, a, b, lo, hi = rng.choice(rr)
+        taken = {i for i, _ in sp.defined}
+        if rng.random() < 0.5 and (stem + str(lo - 1)) not in taken:
+            c[k] = "%s{%d:%d}" % (stem, lo - 1, b)
+            return ("dangling-range:first", True, {"ref": c[k]})
+        if (stem + str(hi)) not in taken:
+            c[k] = "%s{%d:%d}" % (stem, a, hi + 1)
+            return ("dangling-range:last", True, {"ref": c[k]})
+        return mutate(sp, rng, "dangling")
     if which == "forward-top":
         # a reference to an object that is only defined LATER in the file
         tops = [i for i, x in enumerate(sp.top) if isinstance(x, dict)]
